@@ -60,27 +60,28 @@ def rule_accept_needs_end(ctx: Ctx, rid="C06.ACCEPT-NEEDS-END"):
     from pyab_static import absint as A
     m = ctx.mod("sly/yacc.py")
     init = m.get_method("LRTable", "__init__")
-    loop = None
-    for n in ast.walk(init):
-        if isinstance(n, ast.For) and any(isinstance(x, ast.Subscript) and isinstance(x.ctx, ast.Store) and norm(x.value).endswith("defaulted_states")
-                                          for x in ast.walk(n)):
-            loop = n
-    if loop is None or not (isinstance(loop.target, ast.Tuple) and len(loop.target.elts) == 2 and "lr_action" in norm(loop.iter)):
+    # the statements that compute self.defaulted_states: its (re)initialisation and the loop that fills it, or one
+    # comprehension; they are interpreted with self.lr_action = {7: <the scenario's actions>}
+    stmts = []
+    for n in init.body:
+        writes = any((isinstance(x, ast.Attribute) and x.attr == "defaulted_states" and isinstance(x.ctx, ast.Store)) or
+                     (isinstance(x, ast.Subscript) and isinstance(x.ctx, ast.Store) and norm(x.value).endswith("defaulted_states"))
+                     for x in ast.walk(n))
+        if writes:
+            stmts.append(n)
+    if not stmts or not any("lr_action" in norm(x) for x in stmts):
         raise AnalysisError("sly/yacc.py:LRTable.__init__: defaulted-state computation not found")
-    sname, aname = [norm(x) for x in loop.target.elts]
+    loop = stmts[-1]
     scenarios = [("a single reduce", {"tok": -3}, True), ("the accept action", {"tok": 0}, False), ("a single shift", {"tok": 4}, False),
                  ("two reduces", {"t1": -3, "t2": -5}, False), ("reduce and shift", {"t1": -3, "t2": 6}, False)]
     wrong = []
     for label, actions, want in scenarios:
         it = A.Interp(ctx.src)
         cls = it.class_val(m, m.classes()["LRTable"])
-        selfo = A.Obj(cls, {"defaulted_states": A.ADict({})})
-        env = A.Env(m, {"self": selfo, sname: 7, aname: A.ADict(dict(actions))})
+        selfo = A.Obj(cls, {"defaulted_states": A.ADict({}), "lr_action": A.ADict({7: A.ADict(dict(actions))})})
+        env = A.Env(m, {init.args.args[0].arg: selfo})
         try:
-            try:
-                it.exec_block(loop.body, env)
-            except A.ContinueSig:
-                pass
+            it.exec_block(stmts, env)
         except A.RaiseSig:
             pass
         except (A.Unsupported, A.NeedChoice) as e:
